@@ -324,7 +324,26 @@ where
     /// assert!(!n1.is_connected(n2.key()));
     /// ```
     pub fn disconnect(&self, other: &K) -> Result<E, Error> {
-        self.inner.2.borrow_mut().remove_undirected(other)
+        // An undirected edge is stored as an outbound half at the node that
+        // called `connect` and an inbound half at the other node: both halves
+        // have to be removed, each under its own borrow.
+        match self.find_adjacent(other) {
+            Some(other) => {
+                let inbound = self.inner.2.borrow_mut().remove_inbound(other.key());
+                match inbound {
+                    Ok(edge) => {
+                        other.inner.2.borrow_mut().remove_outbound(self.key())?;
+                        Ok(edge)
+                    }
+                    Err(_) => {
+                        let edge = self.inner.2.borrow_mut().remove_outbound(other.key())?;
+                        other.inner.2.borrow_mut().remove_inbound(self.key())?;
+                        Ok(edge)
+                    }
+                }
+            }
+            None => Err(Error::EdgeNotFound),
+        }
     }
 
     /// Removes all inbound and outbound connections to and from the node.
